@@ -417,6 +417,9 @@ SignerTypes ==
           St("p2sh-p2pk", "legacy", PkScript(K1, TRUE), 2, <<K1>>, TRUE),
           St("p2sh-p2pkh", "legacy", PkhScript(K1, TRUE), 5, <<K1>>, TRUE),
           St("p2sh-multisig-2of3", "legacy", Multi23, 6, <<K1, K2>>, TRUE),
+          \* signed in two passes (the second key first), merged by the helper
+          St("multisig-2of2-merged", "legacy", Multi22, 5, <<K1, K2>>, TRUE),
+          St("p2sh-multisig-2of3-merged", "legacy", Multi23, 6, <<K1, K2>>, TRUE),
           St("p2sh-p2wpkh", "v0", PkhScript(K1, TRUE), 5, <<K1>>, TRUE),
           St("p2wsh-p2pk", "v0", PkScript(K1, TRUE), 2, <<K1>>, TRUE),
           St("p2wsh-multisig-2of3", "v0", Multi23, 6, <<K1, K2>>, TRUE),
@@ -482,7 +485,7 @@ PickShape(g) ==
 \* family "script": every script shape, on two-input two-output (and, in the
 \* thorough tier, every) transactions
 ScriptHts(alg) == IF Thorough THEN Reps(alg) ELSE {1, 3, 130}
-ScriptTxs      == IF Thorough THEN {<<1, 1>>, <<2, 0>>, <<2, 2>>, <<3, 2>>} ELSE {<<2, 2>>}
+ScriptTxs      == IF Thorough THEN TxShapes ELSE {<<2, 2>>}
 PickScript(g) ==
     \E s \in ScriptTxs, ht \in ScriptHts(g.alg), sh \in ScriptShapes(g.alg) \ BasicShapes(g.alg), ax \in Annexes(g.alg) :
       \E idx \in 1..s[1] :
@@ -493,8 +496,9 @@ PickScript(g) ==
 
 \* family "byte": all 256 hash type bytes, one input with and one without a
 \* matching output
+ByteTxs == IF Thorough THEN {<<2, 2, 2>>, <<3, 2, 3>>, <<1, 0, 1>>, <<3, 3, 1>>} ELSE {<<2, 2, 2>>, <<3, 2, 3>>}
 PickByte(g) ==
-    \E ht \in {b \in 0..255 : Acp(b) = g.acp}, sh \in BasicShapes(g.alg), ax \in Annexes(g.alg), w \in {<<2, 2, 2>>, <<3, 2, 3>>} :
+    \E ht \in {b \in 0..255 : Acp(b) = g.acp}, sh \in BasicShapes(g.alg), ax \in Annexes(g.alg), w \in ByteTxs :
         LET tx == MkTx(w[1], w[2])
             c  == Ctx(g.alg, sh, ht, w[3], ax)
         IN /\ case' = SigCase(tx, c, "byte")
